@@ -10,6 +10,7 @@ OPS = {
     "other_pub": ("function", lambda o: o.other_pub()),
     "_prot": ("function", lambda o: o._prot()),
     "__priv": ("function", lambda o: o._call_priv()),
+    "__unm": ("function", lambda o: getattr(o, "__unm")()),      # a name with two leading underscores that was NOT mangled
     "__len__": ("function", lambda o: len(o)),
     "__call__": ("function", lambda o: o()),
     "__eq__": ("function", lambda o: o == 3),
@@ -34,6 +35,7 @@ SRC = {
     "other_pub": "def other_pub(self): return 1",
     "_prot": "def _prot(self): return 1",
     "__priv": "def __priv(self): return 1\ndef _call_priv(self): return self.__priv()",
+    "__unm": "def _unm_impl(self): return 1\nlocals()['__unm'] = _unm_impl",
     "__len__": "def __len__(self): return 3",
     "__call__": "def __call__(self): return 1",
     "__eq__": "def __eq__(self, other): return False\n__hash__ = None",
